@@ -78,7 +78,7 @@ Section JdFacts.
                       (pair_code pc pr, choose_cov_init F f0 fmul fsqrt fround7 ftenth ie_init p (sym_name vrr) (sym_name vcc))) ps.
   Proof.
     unfold create_joint_distribution.
-    destruct (existsb _ inds); [discriminate|]. destruct (length inds =? 1); [discriminate|].
+    destruct (existsb _ inds); [discriminate|]. destruct (length inds <? 2); [discriminate|].
     destruct (sjoin inds None (Some pn) r) as [[r0 ps]|e]; [|discriminate].
     destruct (nodupb _); [|discriminate].
     intros H. inversion H; subst. exists ps. split; reflexivity.
@@ -95,6 +95,13 @@ Section JdFacts.
   Lemma cjd_outside_cov_lemma inds pn p (r r' : scoll) p' x y : wf sym r = true -> cjd inds pn p r = Ok (r', p') ->
     In x (names r) -> In y (names r) -> ~ In x inds -> ~ In y inds -> cov sym None r' x y = cov sym None r x y.
   Proof. intros Hwf H. destruct (cjd_inv _ _ _ _ _ _ H) as [ps [HJ _]]. eapply join_outside_lemma; eauto. Qed.
+
+  (* fewer than two requested etas (in particular an empty default selection): the documented ValueError *)
+  Lemma cjd_too_few_lemma inds pn p (r : scoll) : length inds < 2 -> cjd inds pn p r = Err ValueError.
+  Proof.
+    intros H. unfold create_joint_distribution. destruct (existsb _ inds); [reflexivity|].
+    destruct (Nat.ltb_spec (length inds) 2); [reflexivity | lia].
+  Qed.
 
   (* the old parameters are untouched; every new one carries a template name *)
   Lemma cjd_params_lemma inds pn p (r r' : scoll) p' : cjd inds pn p r = Ok (r', p') ->
